@@ -28,6 +28,8 @@ BASE = {
     "sp2.f90": "submodule (par) subp\ncontains\n  module procedure foo\n    y = x\n  end procedure foo\nend submodule subp\n",
     "sf1.f90": "module fpar\n  interface\n    module function mf(a) result(r)\n      integer :: a\n      real :: r\n    end function mf\n  end interface\nend module fpar\n",
     "sf2.f90": "submodule (fpar) fchild\ncontains\n  module function mf(a) result(r)\n    integer :: a\n    real :: r\n    r = a\n  end function mf\nend submodule fchild\n",
+    "long.f90": "module longm\n  integer :: a_rather_long_name_for_a_variable = 1234567890 + 1234567890 + 12345\n"
+                "  ! a comment line that is longer than the configured sixty characters, clearly\nend module longm\n",
     "w.f90": "subroutine uses_inc()\n  include 'inc.f90'\n  from_inc = 1\nend subroutine uses_inc\n",
 }
 
@@ -145,7 +147,7 @@ def run_history(hname, steps):
     ws = Workspace(dict(BASE))
     try:
         def start():
-            srv, rw = make_server()
+            srv, rw = make_server(("--max_line_length", "60", "--max_comment_line_length", "60"))
             srv.nthreads = 1
             srv.handle({"jsonrpc": "2.0", "id": 0, "method": "initialize",
                         "params": {"rootUri": path_to_uri(ws.root), "rootPath": ws.root}})
